@@ -58,7 +58,7 @@ ASSUMPTIONS = [
     'A-INT: integers are mathematical; A-LOG: logging (and BayesianOptimization._report_batch, which only formats a log message) has no effect',
     'bounds are well-formed: lo_i <= hi_i (minimize), lo_i < hi_i for the acquisition rules (a degenerate bound with positive noise makes scipy raise ValueError: a crash, not a point outside the bounds); noise variances >= 0 (_check_noise_var); n_inits >= 1',
     'prior.rvs returns an (n, dim) matrix, or a length-n vector when dim = 1 (ModelPrior.rvs); ModelPrior.rvs(size=None) is modelled as a (dim,) vector (for dim = 1 the real one returns a scalar, which RandMaxVar(init_from_prior=True) cannot index: a crash outside the statement)',
-    'batches handed to update have batch_size rows per output (C04/C18); batch dict / evidence bookkeeping contracts use two parameters, surrogate column order (b, a) vs model order (a, b)',
+    'batches handed to update have batch_size rows per output (C04/C18); batch dict / evidence bookkeeping contracts are per concrete number of parameters: 1, 2, 3 and 4, each with a surrogate column order that differs from the model order where possible ((b, a) vs (a, b); (c, a, b); (b, d2, a, c))',
     'evidence invariant X = precomputed ++ concat(consumed params): __init__ establishes it, update preserves it (one step each, machine-checked); the induction over the run is a paper step',
     'synchronous schedule independence: proved = acquire is only reached with no pending batch (AllowSubmit + PrepareNewBatch + Iterate glue); that the GP state then is a function of the consumed batches only uses C04 (in-order consumption) and C10 - paper step; bounded runs confirm',
     'termination of RandMaxVar\'s retry loop / MCMC and of scipy are not proved; exceptions raised inside callees (mcmc "bad initialization", GPy) are not modelled',
@@ -67,7 +67,7 @@ NOT_PROVED = [
     'for every acquisition rule: RandMaxVar.acquire "lies inside the user\'s bounds" is REFUTED when the prior support is not contained in the bounds (known finding C11-F8); proved instead: every acquired point is a state of the chain, whose initial point is inside the bounds',
     'with synchronous acquisition the fitted evidence is the same for every worker schedule: bounded (3-8 schedules x 6 configurations) + the proved invariant "no pending batch at acquire"; the composition with C04 is a paper step',
     'acquisition gradients equal the derivatives: proved by CAS at the listed shapes, for v > 0, beta_t > 0, sigma_n^2 > 0, prior density > 0; MaxVar additionally assumes the two Owen-T partial derivatives; ExpIntVar has no analytic gradient in the code (numeric in scipy)',
-    'for all numbers of parameters: the batch-dict bookkeeping (BayesianOptimization.__init__/update/prepare_new_batch) is proved for two parameters only; _resolve_initial_evidence default for dim 1..5',
+    'for all numbers of parameters: the batch-dict bookkeeping (BayesianOptimization.__init__/update/prepare_new_batch) is proved for 1, 2, 3 and 4 parameters (dict keys are concrete strings in the engine), not for a symbolic number; _resolve_initial_evidence default for dim 1..5',
 ]
 
 
